@@ -205,7 +205,7 @@ def gen_shape(rng, maxel):
         return []
     if r < 0.30:
         return [rng.choice([0, 1, 2, 3, 5, 7, 9, 17, 31, 33, 63, 65, 127, 129, 255, 257, 1001, rng.randint(0, maxel)]) % (maxel + 1)]
-    nd = rng.choice([1, 2, 2, 2, 3, 3, 4, 4])
+    nd = rng.choice([1, 2, 2, 2, 3, 3, 4, 4, 4, 5])
     dims = [rng.choice([0, 1, 1, 2, 2, 3, 3, 4, 5, 7, rng.randint(0, 9)]) for _ in range(nd)]
     while numel(dims) > maxel:
         i = max(range(nd), key=lambda k: dims[k])
@@ -220,7 +220,18 @@ def gen_layout(rng, shape):
     kinds = ["contig", "offset", "strided", "expand", "overlap"]
     if nd >= 2:
         kinds += ["transposed", "transposed", "transposed_offset"]
+    if nd in (4, 5):
+        kinds += ["channels_last"] * 4          # dense but not row-major (torch.channels_last / channels_last_3d)
     kind = rng.choice(kinds)
+    if kind == "channels_last":
+        # physical order N, spatial..., C : strides of dim 1 (C) = 1
+        phys = [0] + list(range(2, nd)) + [1]
+        base = [shape[p] for p in phys]
+        bst = rowmajor(base)
+        strides = [0] * nd
+        for k, p in enumerate(phys):
+            strides[p] = bst[k]
+        return kind, n, strides, 0
     if kind == "contig":
         return kind, n, rowmajor(shape), 0
     if kind == "offset":
